@@ -71,6 +71,11 @@ func judgeFinal(c *Case, ex *Expectation, root string, before map[string]Node, c
 			continue
 		}
 		d := filepath.Clean(j.Dst)
+		if j.Blocked {
+			// cannot be written: nothing about it is allowed to appear, and the file in the way
+			// is judged below like any other file that is no destination
+			continue
+		}
 		allowed[d] = true
 		for p := filepath.Dir(d); p != "." && p != "/"; p = filepath.Dir(p) {
 			allowed[p] = true
@@ -193,6 +198,9 @@ func C19Case(r *Runner, base string, tape *sim.Tape) *Outcome {
 	}
 	if c.Inv.Prepopulated > 0 {
 		out.stat("scenarios_with_prepopulated_destinations", 1)
+	}
+	if len(c.Inv.Blockers) > 0 {
+		out.stat("scenarios_with_a_file_where_a_directory_is_needed", 1)
 	}
 	work, err := NewWork(base)
 	if err != nil {
